@@ -2642,7 +2642,11 @@ func (c *RpkiValidationCondition) Type() ConditionType {
 
 func (c *RpkiValidationCondition) Evaluate(path *Path, options *PolicyOptions) bool {
 	if options != nil && options.Validate != nil {
-		return c.result == options.Validate(path).Status
+		// Validate returns nil for paths origin validation does not apply to
+		// (address families other than IPv4/IPv6 unicast, withdrawals, EOR).
+		if v := options.Validate(path); v != nil {
+			return c.result == v.Status
+		}
 	}
 	return false
 }
